@@ -41,7 +41,7 @@ enum {
     OP_OPUT, OP_OGET,
     OP_QPUT, OP_QGET, OP_QCANCEL, OP_QREPRIO,
     OP_CWAIT, OP_CSIG, OP_CSET, OP_CCANCEL0, OP_CCANCEL1, OP_CCANCEL2, OP_CREMOVE0, OP_CREMOVE1, OP_CREMOVE2,
-    OP_RECON, OP_RECOFF
+    OP_RECON, OP_RECOFF, OP_TSET, OP_RESTART0, OP_RESTART1, OP_RESTART2
 };
 
 #ifndef NPROC
@@ -120,7 +120,7 @@ static int nled;
 struct proc {
     struct cmb_process *p;
     int64_t prio;
-    int started, finished, stopped;
+    int started, finished, stopped, runs, restart_pending;
     double end_time;
     void *exit_expected;
     int waiting, wait_arg;       /* what it is blocked on (W_*) */
@@ -398,7 +398,7 @@ static void invariants(void)
     for (int i = 0; i < NPROC; i++) {
         if (P[i].finished) {
             sym_assert(cmb_process_status(P[i].p) == CMB_PROCESS_FINISHED, "ended process has status FINISHED");
-            sym_assert(cmb_event_pattern_count(CMB_ANY_ACTION, P[i].p, CMB_ANY_OBJECT) == 0, "no event remains queued for an ended process");
+            sym_assert(cmb_event_pattern_count(CMB_ANY_ACTION, P[i].p, CMB_ANY_OBJECT) == (uint64_t)P[i].restart_pending, "no event remains queued for an ended process");
             sym_assert(owner != i && P[i].pool_held == 0, "an ended process holds nothing");
         }
     }
@@ -443,6 +443,15 @@ static void step(int id, int op)
         else { dt = sym_f64("dt"); sym_assume(dt >= 0.0); sym_assume(dt <= 8.0); }
         if (P[id].ntimers >= 4) break;
         uint64_t h = cmb_process_timer_add(me, dt, sig);
+        P[id].timers[P[id].ntimers++] = h;
+        ledger_add(id, L_TIMER, sig, now + dt, h);
+        break; }
+    case OP_TSET: {
+        double dt; int64_t sig = sym_range(1, 3, "tsig");
+        if (CONCRETE_D) dt = (double)sym_choice(3, "dtsel");
+        else { dt = sym_f64("dt"); sym_assume(dt >= 0.0); sym_assume(dt <= 8.0); }
+        uint64_t h = cmb_process_timer_set(me, dt, sig);       /* documented: clears the previous timers of the process */
+        cancel_timers_of(id);
         P[id].timers[P[id].ntimers++] = h;
         ledger_add(id, L_TIMER, sig, now + dt, h);
         break; }
@@ -745,6 +754,12 @@ static void step(int id, int op)
         if (waitingj) P[j].c_must = 0;
         if (waitingj && !cancel) P[j].wait_arg = 2;    /* removed: stays suspended until something else resumes it */
         break; }
+    case OP_RESTART0: case OP_RESTART1: case OP_RESTART2: {
+        int j = op - OP_RESTART0;
+        if (j >= NPROC || j == id || !P[j].finished || P[j].runs >= 2) break;
+        P[j].started = 0; nhold[j] = 0; P[j].restart_pending = 1;       /* it counts as finished until its start event runs */
+        cmb_process_start(P[j].p);          /* documented: a finished process can be started again from the beginning */
+        break; }
     case OP_RECON:
         break;
     default:
@@ -758,7 +773,12 @@ static void *body(struct cmb_process *me, void *ctx)
     sym_assert(me == P[id].p, "a started process receives its own handle");
     sym_assert(cmb_process_current() == me, "current process is the running one");
     P[id].started++;
+    P[id].runs++;
+    P[id].finished = 0; P[id].stopped = 0; P[id].waiting = W_NONE; P[id].ntimers = 0; P[id].restart_pending = 0;
     sym_assert(P[id].started == 1, "process function entered once per start");
+    sym_assert(owner != id && P[id].pool_held == 0 && cmb_resourcepool_held_by_process(PL, me) == 0 && cmb_resource_held_by_process(R, me) == 0,
+               "a (re)started process begins with nothing held");
+    sym_assert(cmb_event_pattern_count(CMB_ANY_ACTION, me, CMB_ANY_OBJECT) == 0, "a (re)started process begins with nothing awaited and no event queued for it");
     for (int k = 0; k < MAXSTEP && scripts[id][k] != OP_END; k++) step(id, scripts[id][k]);
     void *val = (void *)(intptr_t)(100 + id);
     shadow_end(id, 0, val);
